@@ -19,7 +19,17 @@ Layer 3 (binding):harness/drv_timer.c runs seeded random populations of real tim
                   publications preceded the needs-configuration load of the delivering invoke.  With the H5
                   probes applied, the manager's decisions (arm, run, fire, program, timerfd event, blocking wait)
                   and every _dispatch_timer_unote_configure (law ConfigureClearsPending on ds_pending_data) of
-                  real executions are validated as behaviours of spec/TimerTrace.tla (same operators as Timer.tla)."""
+                  real executions are validated as behaviours of spec/TimerTrace.tla (same operators as Timer.tla).
+Ownership:        Timer.tla states who may touch the heaps and the timerfds (the manager; a target-queue thread configures
+                  a timer itself only when the data it latched carried the DISARMED marker = the timer is in no heap):
+                  action properties HeapMutatedOnlyByOwner / KernelTimerProgrammedOnlyByOwner, invariants ProgrammedCoversHeap /
+                  DisarmedMarkerMeansOutOfHeap, liveness ConfigApplied + Fires on a configuration where an armed timer is
+                  re-set from its own handler (Timer_reset.cfg); mutant worker_configures_armed must be refuted by the
+                  action property, by ProgrammedCoversHeap alone and by liveness alone.  Binding: every trace record carries
+                  its thread, TimerTrace.tla requires heap / run / program records from the manager and a non-manager
+                  `cfgtake` only on a timer that is out of the heap with the marker latched; drv_timer's directed population
+                  (C11_DIRECTED_RESET: private serial queues only, nothing else can wake the manager) judges FollowsNewSettings:
+                  a re-set armed timer overdue by > 400 ms at its new start with every thread asleep is not programmed."""
 import os, re, json, collections, time, concurrent.futures
 from vlib import *
 
@@ -46,6 +56,21 @@ def drop_lines(path, *prefixes):
     src = open(path).read().splitlines()
     with open(path, "w") as f:
         f.write("\n".join(l for l in src if not any(l.strip().startswith(p) for p in prefixes)) + "\n")
+    return path
+
+
+def relist(path, keyword, names):
+    """Replace the `INVARIANTS ...` / `PROPERTIES ...` line of a derived cfg (names = None: drop it)."""
+    src = open(path).read().splitlines()
+    if not any(l.strip().startswith(keyword) for l in src):
+        raise Broken("cfg %s has no %s line" % (path, keyword))
+    with open(path, "w") as f:
+        for l in src:
+            if l.strip().startswith(keyword):
+                if names:
+                    f.write("%s %s\n" % (keyword, names))
+            else:
+                f.write(l + "\n")
     return path
 
 
@@ -311,6 +336,18 @@ def timer_layer(v, tier, seed):
     for mut, sub in TIMER_MUTANTS:
         cfg = cfg_from("Timer_q.cfg", "Timer_mut_%s.cfg" % mut, Mut='"%s"' % mut, **sub)
         jobs.append(("Timer mutant " + mut, cfg, mut, False))
+    # ownership: an ARMED timer re-set from its own handler (2 set_timer calls, old interval 5 > horizon: nothing but the new
+    # settings can wake the manager).  Unmutated: all invariants + liveness Fires / ConfigApplied + the action properties.
+    cfg = cfg_from("Timer_reset.cfg", "Timer_reset.cfg")
+    jobs.append(("Timer_reset (FairSpec: armed timer re-set from its handler; Fires, ConfigApplied, ownership)", cfg, None, True))
+    # ... and the mutant (= seeded change C11-4), refuted three times independently
+    m = '"worker_configures_armed"'
+    cfg = relist(cfg_from("Timer_q.cfg", "Timer_mut_wca_action.cfg", Mut=m), "INVARIANTS", None)
+    jobs.append(("Timer mutant worker_configures_armed (action property only)", cfg, ("expect", "worker_configures_armed/ownership", ("HeapMutatedOnlyByOwner",)), False))
+    cfg = relist(relist(cfg_from("Timer_q.cfg", "Timer_mut_wca_cover.cfg", Mut=m), "INVARIANTS", "ProgrammedCoversHeap"), "PROPERTIES", None)
+    jobs.append(("Timer mutant worker_configures_armed (ProgrammedCoversHeap only)", cfg, ("expect", "worker_configures_armed/cover", ("ProgrammedCoversHeap",)), False))
+    cfg = relist(relist(cfg_from("Timer_reset.cfg", "Timer_mut_wca_live.cfg", Mut=m), "PROPERTIES", "Fires"), "INVARIANTS", None)
+    jobs.append(("Timer mutant worker_configures_armed (liveness Fires only, no unrelated wake-up)", cfg, ("expect", "worker_configures_armed/liveness", ("temporal",)), False))
     # the pinned code's configure window (known finding KF_WINDOW): take, then clear, when _dispatch_timers_run configures
     cfg = cfg_from("Timer_q.cfg", "Timer_dev_pinned_configure_window.cfg", Mut='"pinned_configure_window"')
     jobs.append(("Timer deviation pinned_configure_window", cfg, "deviation", False))
@@ -333,6 +370,12 @@ def timer_layer(v, tier, seed):
                             save_replay(PROP, os.path.basename(cfg) + ".tlc.out", r.out))
             elif liveness and "Checking temporal properties" not in r.out and "temporal properties" not in r.out:
                 raise Broken("liveness was not checked for %s" % name)
+        elif isinstance(mut, tuple):
+            _, label, expected = mut
+            if r.violated not in expected:
+                raise Broken("spec mutant %s of Timer: expected TLC to report %s, got %s: the ownership properties are vacuous in these bounds\n%s"
+                             % (label, "/".join(expected), r.violated, r.out[-1500:]))
+            v.notes.setdefault("spec_mutants_refuted", []).append({"spec": "Timer", "mutant": label, "by": r.violated, "depth": r.depth})
         elif mut == "deviation":
             if r.violated != "OnlyNewConfig":
                 raise Broken("Timer.tla with the pinned take-then-clear order of _dispatch_timer_unote_configure in _dispatch_timers_run "
@@ -356,7 +399,7 @@ def timer_layer(v, tier, seed):
 KF_WINDOW = "configure-window-latch-race"
 
 
-def timer_failure(v, s, n, span, rc, err, fail, what, steer=None):
+def timer_failure(v, s, n, span, rc, err, fail, what, steer=None, directed=False):
     """A failed population: a violation, unless its signature is a listed known finding."""
     j = None
     if os.path.exists(fail):
@@ -379,9 +422,15 @@ def timer_failure(v, s, n, span, rc, err, fail, what, steer=None):
         v.notes["known_finding_hits_" + KF_WINDOW] = v.notes.get("known_finding_hits_" + KF_WINDOW, 0) + 1
         return
     if j is not None:
+        if directed:
+            j["directed_reset"] = 1
+            j["ntimers"], j["span_ms"] = n, span
+            with open(fail, "w") as f:
+                json.dump(j, f)
         p = save_replay(PROP, "timer_seed%d.json" % s, src=fail)
     else:
-        p = save_replay(PROP, "timer_seed%d.json" % s, json.dumps({"seed": s, "ntimers": n, "span_ms": span, "steer_us": steer or 0, "stderr": err[-3000:]}))
+        p = save_replay(PROP, "timer_seed%d.json" % s, json.dumps({"seed": s, "ntimers": n, "span_ms": span, "steer_us": steer or 0,
+                                                                     "directed_reset": int(directed), "stderr": err[-3000:]}))
     v.violation("%s (drv_timer seed %d, %d timers%s): %s" % (what, s, n, ", C11_STEER_CFG_WINDOW=%s" % steer if steer else "", lines), p)
 
 
@@ -422,6 +471,53 @@ def directed_configure_window(v, tier, seed):
                          "(no stall executed): the scenario is vacuous")
         if any(f.get("key") == KF_WINDOW for f in known_findings(PROP)["findings"]):
             v.notes["known_finding_not_observed_" + KF_WINDOW] = "no directed population showed it on this tree (repaired?)"
+
+
+def directed_reset_armed(v, tier, seed):
+    """Directed populations for the ownership of the heaps (Timer.tla: TPost / OffManagerMayConfigure, liveness ConfigApplied + Fires
+    in Timer_reset.cfg): one timer at a time on private serial queues, no global queue, no other timer - nothing but the timer
+    itself can wake the manager.  An armed repeating timer re-sets itself from its own handler; the driver judges
+    FollowsNewSettings (overdue by > 400 ms at the new start AND every thread of the process asleep for 300 ms: the timerfd
+    is not programmed for it) next to the ordinary NeverEarly / CountBound / OnlyNewConfig oracles."""
+    drv = build_driver("drv_timer")
+    d = rundir(PROP)
+    procs, rounds = (4, 10) if tier == "quick" else (8, 30)
+    seeds = [seed * 100000 + 7000 + i for i in range(procs)]
+
+    def one(s):
+        fail = os.path.join(d, "timerfail_%d.json" % s)
+        if os.path.exists(fail):
+            os.unlink(fail)
+        rc, out, err = sh([drv, str(s), str(rounds), "0", fail], timeout=400, env={"C11_DIRECTED_RESET": "1"})
+        return s, rc, out, err, fail
+    with concurrent.futures.ThreadPoolExecutor(procs) as ex:
+        res = list(ex.map(one, seeds))
+    tot = collections.Counter()
+    for s, rc, out, err, fail in res:
+        if rc in (2, 70, 71, 124):
+            what = {2: "directed re-set population (armed timer re-sets itself from its handler, idle process): an oracle (invariant / liveness "
+                       "obligation of spec/Timer.tla) failed on a real timer", 70: "directed re-set population: crash inside libdispatch",
+                    71: "directed re-set population: Fires", 124: "directed re-set population (normally ~2 s) did not complete within 400 s"}[rc]
+            timer_failure(v, s, rounds, 0, rc, err, fail, what, directed=True)
+            continue
+        if rc != 0:
+            raise Broken("drv_timer (directed re-set) failed rc=%d: %s %s" % (rc, out[-500:], err[-1000:]))
+        j = json.loads(out.strip().splitlines()[-1])
+        for k in ("dir_rounds", "dir_timing_detectable", "dir_on_time", "dir_late_unproven", "dir_inconclusive", "dir_reset_while_armed",
+                  "dir_applied_by_manager", "handler_invocations", "exact_checks", "takes_tq_nomarker"):
+            tot[k] += j.get(k, 0)
+        tot["dir_max_late_us"] = max(tot["dir_max_late_us"], j.get("dir_max_late_us", 0))
+        tot["populations"] += 1
+        v.traces += j.get("dir_rounds", 0)
+    v.notes["directed_reset_armed"] = dict(tot)
+    if not v.violations and tot["populations"]:
+        if tot["dir_reset_while_armed"] == 0:
+            raise Broken("directed re-set populations: no timer was still armed when its handler called dispatch_source_set_timer: the scenario is vacuous")
+        if tot["dir_on_time"] + tot["dir_late_unproven"] + tot["dir_inconclusive"] != tot["dir_rounds"]:
+            raise Broken("directed re-set populations: rounds unaccounted for: %s" % dict(tot))
+        if tot["dir_late_unproven"]:
+            log("C11: %d directed rounds were invoked later than the slack without proof of an idle process (machine load); max %d us"
+                % (tot["dir_late_unproven"], tot["dir_max_late_us"]))
 
 
 def real_timers(v, tier, seed):
@@ -511,8 +607,13 @@ def timer_traces(v, tier, seed):
         return
     drv = build_driver("drv_timer")
     d = rundir(PROP)
-    ntr, ntimers, span, batch = (4, 30, 400, 4) if tier == "quick" else (16, 40, 600, 4)
+    ntr, ntimers, span, batch, ndir, dir_rounds = (4, 30, 400, 5, 1, 12) if tier == "quick" else (16, 40, 600, 4, 4, 25)
     seeds = [seed * 100000 + 5000 + i for i in range(ntr)]
+    # recorded executions of the directed re-set population too (an armed timer re-sets itself from its handler, nothing else
+    # pending): the trace spec judges them (ownership laws), the driver's own oracles are off (they judge the same population
+    # in directed_reset_armed)
+    dseeds = set(seed * 100000 + 5500 + i for i in range(ndir))
+    seeds += sorted(dseeds)
     tot = collections.Counter()
 
     def one(s):
@@ -521,7 +622,10 @@ def timer_traces(v, tier, seed):
         for f in (tr, fail):
             if os.path.exists(f):
                 os.unlink(f)
-        rc, out, err = sh([drv, str(s), str(ntimers), str(span), fail, tr], timeout=180)
+        if s in dseeds:
+            rc, out, err = sh([drv, str(s), str(dir_rounds), "0", fail, tr], timeout=400, env={"C11_DIRECTED_RESET": "1", "C11_TRACE_ONLY": "1"})
+        else:
+            rc, out, err = sh([drv, str(s), str(ntimers), str(span), fail, tr], timeout=180)
         j = json.loads(out.strip().splitlines()[-1]) if rc == 0 else None
         return s, rc, out, err, fail, j, tr
     with concurrent.futures.ThreadPoolExecutor(4) as ex:
@@ -558,6 +662,13 @@ def timer_traces(v, tier, seed):
             tot["records"] += sum(j["trace_records"] for _, j, _ in part)
             tot["configure_records"] += sum(j.get("trace_configures", 0) for _, j, _ in part)
             tot["configure_on_disarmed_pending"] += sum(j.get("configure_on_disarmed_pending", 0) for _, j, _ in part)
+            tot["directed_reset_traces"] += sum(1 for s, _, _ in part if s in dseeds)
+            tot["directed_resets_while_armed"] += sum(j.get("dir_reset_while_armed", 0) for _, j, _ in part)
+            # cfgtake records made by a thread other than the manager (legitimate: marker latched, timer out of the heap)
+            tot["cfgtake_off_manager"] += sum(j.get("trace_offmgr_takes", 0) for _, j, _ in part)
+            tot["heap_records_off_manager"] += sum(j.get("trace_offmgr_heap_records", 0) for _, j, _ in part)
+            if any(j.get("manager_threads", 1) != 1 for _, j, _ in part):
+                v.drift.append("timer traces (seeds %s): the manager thread could not be identified uniquely" % [s for s, _, _ in part])
             if k == 0:
                 v.samples.append({"manager_trace_accepted": {"seed": part[0][0], "records": part[0][1]["trace_records"],
                                                              "excerpt": open(hdr).read().splitlines()[1:9]}})
@@ -596,8 +707,9 @@ def run(tier, seed):
     def real(sv):
         real_timers(sv, tier, seed)
         directed_configure_window(sv, tier, seed)
-        if not sv.violations:
-            timer_traces(subs[3], tier, seed)
+        directed_reset_armed(sv, tier, seed)
+        # (also after a failed oracle: a deviation is then reported both as seen from outside and as a broken law of the trace spec)
+        timer_traces(subs[3], tier, seed)
     with concurrent.futures.ThreadPoolExecutor(3) as ex:
         fs = [ex.submit(real, subs[0]), ex.submit(heap_layer, subs[1], tier, seed),
               ex.submit(timer_layer, subs[2], tier, seed)]
@@ -644,7 +756,8 @@ def replay(path, seed):
         bad = 0
         for k in range(3):          # timing is not deterministic: same population, three executions
             rc, out, err = sh([drv, str(j["seed"]), str(j.get("ntimers", 120)), str(j.get("span_ms", 700))], timeout=400,
-                              env={"C11_STEER_CFG_WINDOW": str(j["steer_us"])} if j.get("steer_us") else None)
+                              env={"C11_STEER_CFG_WINDOW": str(j["steer_us"])} if j.get("steer_us") else
+                              {"C11_DIRECTED_RESET": "1"} if j.get("directed_reset") else None)
             print("re-execution %d: rc=%d %s" % (k, rc, (err.strip().splitlines() or [""])[0][:400]))
             bad += rc != 0
         return 1 if bad else 0
